@@ -775,7 +775,9 @@ pub(super) fn reap_closed(k: &mut Kernel) {
     // looks at it. If the peer's FIN or RST is lost it would sit in the
     // table forever. Give it the same patience a retransmitting socket
     // gets, then close it (Linux: `tcp_fin_timeout` for orphans).
-    let limit = k.retx_threshold.saturating_mul(k.retx_max.saturating_add(1));
+    let limit = k
+        .retx_threshold
+        .saturating_mul(k.retx_max.saturating_add(1));
     let orphans: Vec<Fd> = k
         .sockets
         .iter()
